@@ -30,13 +30,14 @@ REAL_FNS = {"sin", "cos", "tan", "sinh", "cosh", "tanh", "exp", "ln", "sqrt", "a
 
 
 class SymExec:
-    def __init__(self, pdb, fn, inline=None, depth=0):
+    def __init__(self, pdb, fn, inline=None, depth=0, auto=False):
         self.pdb, self.fn = pdb, fn
         self.ctx = Ctx.for_fn(pdb, fn)
         self.env = {}        # place term / ('var', id) -> tree
         self.written = []    # places in write order
         self.reads_after_write = []   # (stmt node, read place, written-before place)
         self.inline = inline or set()   # canonical paths of local fns to inline (single-path bodies)
+        self.auto = auto                # also inline every inherent local helper whose body is single-path
         self.depth = depth
         self.ret = None
 
@@ -104,7 +105,7 @@ class SymExec:
             dk = n.get("dk", "")
             cf = self.pdb.fn(n.get("fn"))
             if cf is not None and cf["kind"].startswith("Const"):
-                return SymExec(self.pdb, cf, self.inline, self.depth + 1).run_expr(cf["body"])
+                return SymExec(self.pdb, cf, self.inline, self.depth + 1, auto=self.auto).run_expr(cf["body"])
             return ("const", n.get("fn"))
         if k in ("MethodCall", "Call"):
             return self.call(n)
@@ -149,6 +150,14 @@ class SymExec:
             vals = [self.ev(a) for a in args]
             if p in self.inline and self.depth < 6:
                 return self.inline_call(cf, vals)
+            if self.auto and self.depth < 6 and cf.get("kind") in ("Fn", "AssocFn") and not cf.get("impl_trait"):
+                # an inherent helper with a single-path body (abs_sqr, a private numerator helper, ..) is transparent
+                try:
+                    r = self.inline_call(cf, vals)
+                    if r is not None:
+                        return r
+                except NotStraight:
+                    pass
             return ("ccall", p) + tuple(vals)
         # std real functions
         if name in REAL_FNS and (p or "").startswith(("f64::", "std::f64", "core::f64")) or (name in REAL_FNS and base_ty(ty_of(n)) == "f64"):
@@ -156,7 +165,7 @@ class SymExec:
         raise NotStraight("unsupported call %s" % p)
 
     def inline_call(self, cf, vals):
-        sub = SymExec(self.pdb, cf, self.inline, self.depth + 1)
+        sub = SymExec(self.pdb, cf, self.inline, self.depth + 1, auto=self.auto)
         for i, v in enumerate(vals):
             sub.env[("param", i)] = v
         return sub.run()
@@ -193,6 +202,22 @@ class SymExec:
                         raise NotStraight("pattern")
                     self.env[("var", p_["v"])] = self.ev(e_)
                 return
+            if pat.get("k") == "Struct" and s.get("init") is not None and all(f["pat"].get("k") == "Bind" for f in pat.get("fields", [])):
+                # `let Complex { real: a, imag: b } = z;`
+                try:
+                    base = self.place(s["init"])
+                    for f in pat["fields"]:
+                        self.env[("var", f["pat"]["v"])] = self.read(("field", base, f["name"]))
+                    return
+                except NotStraight:
+                    v = self.ev(s["init"])
+                    if v[0] == "cplx":
+                        for f in pat["fields"]:
+                            if f["name"] in ("real", "imag"):
+                                self.env[("var", f["pat"]["v"])] = v[1] if f["name"] == "real" else v[2]
+                            else:
+                                raise NotStraight("pattern")
+                        return
             raise NotStraight("unsupported let")
         e = strip(s["e"])
         ek = e.get("k")
